@@ -224,7 +224,7 @@ func runReal(c rCase) (viol string, inconclusive bool, answered int64) {
 			w.conns[i].ws.Close()
 		}
 		// everything must wind down
-		deadline := time.Now().Add(15 * time.Second)
+		deadline := time.Now().Add(60 * time.Second) // generous: only a leak lasts this long, a busy machine does not
 		for {
 			l := w.Leaks()
 			live := 0
